@@ -53,7 +53,7 @@ MANIFEST = dict(
               "+ effect summaries",
 )
 FLOORS = {"C20.1": 20, "C20.2": 20, "C20.3": 16, "C20.4": 8, "C20.5": 3,
-          "C20.6": 8, "C20.8": 7}
+          "C20.6": 8, "C20.8": 7, "C20.9": 4}
 
 PL = "evo.tools.plot."
 PM = PL + "PlotMode"
@@ -104,11 +104,31 @@ def check(ctx):
                key=f"C20.1:idx:{m}")
         r = Interp(prog, inline=_helpers).run(f_ax, {"plot_mode": tm.enum(pmq, m)})
         labels = {}
+        cond_labels = {}
         for e in r.of_kind("call"):
             n = e.data.get("name") or ""
             if n in (".set_xlabel", ".set_ylabel", ".set_zlabel") and \
-                    e.data["args"]:
+                    e.data["args"] and not tm.is_const(e.live, False):
                 labels[n[5]] = e.data["args"][0]
+        # ... for every supported unit (the symbolic run above shows *what*
+        # the label is, these runs show that it is always set)
+        uq = prog.cls("evo.core.units.Unit").qualname
+        for um in ("millimeters", "centimeters", "meters", "kilometers"):
+            if um not in (prog.enum_members(uq) or []):
+                continue
+            ru = Interp(prog, inline=_helpers).run(
+                f_ax, {"plot_mode": tm.enum(pmq, m),
+                       "length_unit": tm.enum(uq, um)})
+            seen_ = set()
+            for e in ru.of_kind("call"):
+                n = e.data.get("name") or ""
+                if n in (".set_xlabel", ".set_ylabel", ".set_zlabel") and \
+                        tm.fold(e.live, lambda t: True if is_call_to(
+                            t, "builtins.isinstance") else None) is True:
+                    seen_.add(n[5])
+            for ax_ in labels:
+                if ax_ not in seen_:
+                    cond_labels[ax_] = f"the length unit is {um}"
         unit_v = tm.attr(tm.param("length_unit"), "value")
         for axis, letter in (("x", m[0]), ("y", m[1])) + \
                 ((("z", "z"),) if len(m) == 3 else ()):
@@ -120,6 +140,13 @@ def check(ctx):
                     else "")
             ok = f"${letter}$" in txt and lab is not None and any(
                 x is unit_v for x in lab.walk())
+            if ok and axis in cond_labels:
+                ctx.ob("C20.1", f_ax, False,
+                       f"prepare_axis({m}): the {axis}-axis label is "
+                       f"not set when {cond_labels[axis]} — the axis then "
+                       f"stays unlabelled",
+                       key=f"C20.1:label:{m}:{axis}")
+                continue
             ctx.ob("C20.1", f_ax, ok,
                    f"prepare_axis({m}): {axis}-axis labelled ${letter}$ "
                    f"with the configured unit" if ok else
@@ -139,6 +166,12 @@ def check(ctx):
     ctx.section(_euler_default, ctx, prog)
     ctx.section(_result_plots, ctx, prog)
     ctx.section(_purity, ctx, prog)
+    # the plotted quantities are the trajectory's *current* ones: speeds,
+    # distances, path length are derived on demand and not cached across
+    # operations that change the poses (instances of C08.7)
+    from ..core import import_rules
+    n = import_rules(ctx, "c08", ("C08.7",), "C20.9")
+    ctx.require(n >= 4, "C20.9: derived-quantity instances not found")
 
 
 # --------------------------------------------------------------------- C20.2
